@@ -297,7 +297,7 @@ def check(P: Project, R: Report) -> None:
     fbc = _classes.get("McpPydanticBase")
     R.need(fbc is not None, "anchor: fallback McpPydanticBase not found")
     fbm_ = {s_.name: s_ for s_ in fbc.body if isinstance(s_, (ast.FunctionDef, ast.AsyncFunctionDef))}
-    for label, ok, lineno, detail, sample in nested_serialiser_obligations(fbm_, R):
+    for label, ok, lineno, detail, sample in nested_serialiser_obligations(fbm_, R, _funcs):
         R.ob("R3", label, ok, f"{PF.module(A.MOD_BASE).rel}:{lineno}", detail.replace("so the two backends re-serialise the same message differently", "so the line the child receives lacks a member the message has (only absent optional members of the typed envelope may be omitted)"), sample=("R3 " + sample) if sample else None)
 
     # closing the write stream ends the outgoing stream only if the caller's handle is the only sending handle:
